@@ -42,7 +42,23 @@ struct Ev {
 struct T {
     bool registered{false}, finished{false}, detached{false}, parked{false}, spinning{false}, bg{false};
     std::uint64_t steps{0};
+    std::uint64_t stalled_until{0};          // not schedulable while the global epoch is below this
+    std::chrono::steady_clock::time_point stall_deadline{};   // ... but at most until this instant
+    std::map<int, int> field_count;          // announcements per field (for stall directives)
 };
+struct Stall {
+    int tid, field, nth;
+    std::uint64_t epochs;
+};
+static std::vector<Stall> stalls;
+static bool stalled(const T& t) {
+    return t.stalled_until != 0 && epoch_management::get_epoch() < t.stalled_until &&
+           std::chrono::steady_clock::now() < t.stall_deadline;
+}
+static void stall_thread(T& t, std::uint64_t epochs) {
+    t.stalled_until = epoch_management::get_epoch() + epochs;
+    t.stall_deadline = std::chrono::steady_clock::now() + std::chrono::milliseconds(8 + 6 * epochs);
+}
 
 static std::mutex mu;
 static std::condition_variable cv;
@@ -81,20 +97,20 @@ static int choose(int me) {
     std::vector<int> cand, calm;
     for (int i = 0; i < static_cast<int>(th.size()); ++i) {
         T& t = th[i];
-        if (!t.registered || t.finished || t.detached) continue;
+        if (!t.registered || t.finished || t.detached || stalled(t)) continue;
         if (i != me && !t.parked) continue;
         cand.push_back(i);
         if (!t.spinning) calm.push_back(i);
     }
     if (cand.empty()) return -1;
-    if (policy == 1 && me >= 0 && !th[me].finished && !th[me].detached && !th[me].spinning && (rnd() % 10) < 7) return me;
+    if (policy == 1 && me >= 0 && !th[me].finished && !th[me].detached && !th[me].spinning && !stalled(th[me]) && (rnd() % 10) < 7) return me;
     // spinning threads are picked less often: they cannot progress until someone else does
     if (!calm.empty() && (cand.size() == calm.size() || (rnd() % 4) != 0)) return calm[rnd() % calm.size()];
     return cand[rnd() % cand.size()];
 }
 
 static bool available(int t) {
-    return t >= 0 && t < static_cast<int>(th.size()) && th[t].registered && !th[t].finished && !th[t].detached && th[t].parked;
+    return t >= 0 && t < static_cast<int>(th.size()) && th[t].registered && !th[t].finished && !th[t].detached && th[t].parked && !stalled(th[t]);
 }
 
 // hand the baton to `next` (caller holds the lock)
@@ -112,10 +128,13 @@ static void pick_and_give(std::unique_lock<std::mutex>& lk, int me) {
     }
     if (next < 0) {
         // nobody else can run: wait for a detached thread to come back (or give up)
-        auto ok = cv.wait_for(lk, std::chrono::seconds(5), [&] {
-            for (int i = 0; i < static_cast<int>(th.size()); ++i) if (i != me && available(i)) return true;
-            return !active.load();
-        });
+        bool ok = false;
+        for (int spin = 0; spin < 5000 && !ok; ++spin) {
+            ok = cv.wait_for(lk, std::chrono::milliseconds(1), [&] {
+                for (int i = 0; i < static_cast<int>(th.size()); ++i) if (i != me && available(i)) return true;
+                return !active.load();
+            });
+        }
         if (!ok) { stuck = true; active.store(false); cv.notify_all(); return; }
         for (int i = 0; i < static_cast<int>(th.size()); ++i) if (i != me && available(i)) { next = i; break; }
     }
@@ -152,7 +171,11 @@ static void hook(int kind, const void* obj, int field, std::uint64_t val) {
     T& me = th[my_tid];
     bool is_yield = kind == k_load || kind == k_store || kind == k_cas || kind == k_rmw || kind == k_spin || kind == k_sleep;
     if (!is_yield) {
-        if (keep_trace) trace.push_back({step_no, my_tid, kind, field, obj, val});
+        if (keep_trace) {
+            // a successful CAS on a version word: record the word it produced
+            if (kind == k_cas_ok && field == f_version && obj != nullptr) std::memcpy(&val, obj, 8);
+            trace.push_back({step_no, my_tid, kind, field, obj, val});
+        }
         return;
     }
     bool real_sleep = kind == k_sleep && field == f_generic; // sleepMs of the library's own threads
@@ -167,6 +190,11 @@ static void hook(int kind, const void* obj, int field, std::uint64_t val) {
     }
     me.spinning = (kind == k_spin || kind == k_sleep);
     if (me.spinning) ++spin_streak; else spin_streak = 0;
+    {
+        int c = ++me.field_count[field * 16 + kind];
+        for (auto& sdir : stalls)
+            if (sdir.tid == my_tid && sdir.field == field * 16 + kind && sdir.nth == c) stall_thread(me, sdir.epochs);
+    }
     if (step_no > max_steps || spin_streak > 200000) {
         stuck = true;
         active.store(false);
@@ -345,6 +373,16 @@ static void worker(int tid, std::vector<Rec>* recs, std::vector<NvRec>* nvs, Tok
             o << " ] " << st(rc) << " nv " << nr.nv.size();
             if (ctx != nullptr) iscan_close(ctx);
             nvs->push_back(nr);
+        } else if (op == "sleep_epochs") {
+            // wait (yielding) until the global epoch has advanced by n
+            // (bounded in real time: the epoch cannot advance past a session that stays open)
+            std::uint64_t n = std::strtoull(w[1].c_str(), nullptr, 10);
+            {
+                std::unique_lock<std::mutex> lk(sched::mu);
+                sched::stall_thread(sched::th[tid], n);
+            }
+            YK_VERIF(k_spin, nullptr, f_generic, 0);
+            o << "slept";
         } else if (op == "hold") {
             // re-read everything handed out so far in this session: contents must be unchanged
             std::size_t bad = 0;
@@ -380,6 +418,12 @@ int main(int argc, char** argv) {
         else if (w[0] == "pre") g_pre.push_back(std::vector<std::string>(w.begin() + 1, w.end()));
         else if (w[0] == "thread") { cur = std::atoi(w[1].c_str()); if (static_cast<int>(g_threads.size()) <= cur) g_threads.resize(cur + 1); }
         else if (w[0] == "op" && cur >= 0) g_threads[cur].push_back(Op{std::vector<std::string>(w.begin() + 1, w.end())});
+        else if (w[0] == "stall" && w.size() == 6) {
+            // stall <tid> <field> <kind> <nth> <epochs>: the thread's nth announcement of (field, kind) is
+            // delayed until the global epoch has advanced by <epochs>
+            sched::stalls.push_back({std::atoi(w[1].c_str()), std::atoi(w[2].c_str()) * 16 + std::atoi(w[3].c_str()), std::atoi(w[4].c_str()),
+                                     std::strtoull(w[5].c_str(), nullptr, 10)});
+        }
     }
     int runs = std::atoi(argv[2]);
     std::uint64_t seed = std::strtoull(argv[3], nullptr, 10);
